@@ -16,6 +16,15 @@ CHECKS = {
         technique='Coq proof (induction over histories, positive-fuel search spec) + in-Coq correspondence with StreamControl'),
 }
 
+CHECKS['C02'] = dict(
+    text='Theorems for all 14 frame constructors, all in-range field values, unbounded data/metadata, both header back ends '
+         '(props/C02.v): decode(encode f) = norm f, re-encoding reproduces the bytes, the TCP partial write equals the one-shot '
+         'length-prefixed encoding with an exact length field, back ends agree. Tied to frame.py/frame_helpers.py/tcp.py by '
+         'regenerated constants (flag bits, masks, type ids, error codes) and an in-Coq correspondence over valid frame values and '
+         'a malformed stream, run under cbitstruct and (subprocess) native struct.',
+    design_ref='DESIGN.md section 6, C02',
+    technique='Coq proof (field lemmas, 2^16 header sweep lifted by forallb_forall) + in-Coq correspondence with Frame.serialize/parse_or_ignore/TransportTCP')
+
 NOT_YET = {}
 
 def main():
